@@ -33,7 +33,9 @@ MANIFEST = dict(
          "wrap returns input + 360 k in [-180, 180] for every finite scalar or array element and returns for nan/+-inf (case-partitioned "
          "interval x congruence analysis of the function and the helpers it calls; the loop-shape rules decide only where that analysis "
          "cannot); inverse-fit term enumeration agrees between design matrix and coefficient packing, and the fit drivers hand the "
-         "fitter the convention's source and target coordinates over a grid covering the image (call summaries in the term domain); "
+         "fitter the convention's source and target coordinates over a grid covering the image (call summaries in the term domain); the dispatcher of the lazy fit binds every option to the "
+         "same-named parameter of the driver of the model in use and the first inverse use fits with the order increase the object records; the image size is ZNAXISn when the header "
+         "has them, else NAXISn; the two polynomials of a SIP model are each summed over their own matrix when A_ORDER != B_ORDER; "
          "helpers do not modify their inputs.",
     note="Not decided: the 1e-9 degree / 1e-6 pixel tolerances, convergence of fsolve, accuracy of the fitted inverse polynomial, "
          "numpy broadcasting. Assumes theta0 = 90 (TAN family, the property's quantifier). Trusted: sympy normaliser, CPython ast.",
@@ -706,6 +708,8 @@ def run(chk):
     jacobian(chk, repo)
     wrapdiff(chk, repo)
     invfit(chk, repo)
+    lazyfit(chk, repo)
+    imagesize(chk, repo)
     noalias(chk, repo)
 
 
@@ -1337,6 +1341,36 @@ def coeffs(chk, repo):
         ok = isinstance(r, tuple) and len(r) == 2 and symx.equal(r[0], base[0] + P(a, u, v))[0] and symx.equal(r[1], base[1] + P(b, u, v))[0]
         chk.ob("R10.4", "Distort[%s,inverse=%s]" % (model, inverse), bool(ok), fi.where(),
                "%s: result = %s with the %s coefficient pair in (x, y) order" % (model, "P(x, y)" if model == "scamp" else "(x, y) + P(x, y)", "inverse" if inverse else "forward"))
+    # the two polynomials of a SIP model have independent orders (A_ORDER / B_ORDER and AP_ORDER / BP_ORDER are separate keywords and
+    # ExtractSIPCoeffs sizes each matrix from its own): each polynomial is the full sum over its own coefficient matrix
+    for inverse in (False, True):
+        for ka, kb in ((N - 1, N), (N, N - 1)):
+            st, _, _, _ = _state("-TAN-SIP", "sip")
+            na, nb = ("ap", "bp") if inverse else ("a", "b")
+            A_, B_ = M(na, ka), M(nb, kb)
+            st["self.distort"].update({na: A_, nb: B_, na + "_order": sp.Integer(ka - 1), nb + "_order": sp.Integer(kb - 1)})
+            key = "Distort[sip,inverse=%s,orders=%d/%d]" % (inverse, ka - 1, kb - 1)
+            what = "the x polynomial is the sum over all of the %s matrix and the y polynomial the sum over all of the %s matrix when their orders differ (%d and %d)" % (na, nb, ka - 1, kb - 1)
+            try:
+                r = se.run(fi, dict(st, x=u, y=v), {"inverse": inverse})
+            except IndexError as e:
+                # most likely an element outside one of the two matrices is read (bounds taken from the other one), which the run with the
+                # orders exchanged reports as lost coefficients; an IndexError of the evaluator itself cannot be told apart here: no verdict
+                chk.ob("R10.4", key, None, fi.where(), what + " -- an index outside a sequence is read while evaluating (%s)" % e)
+                continue
+            except (symx.Unsupported, KeyError, TypeError, AttributeError) as e:
+                chk.ob("R10.4", key, None, fi.where(), what + " -- not evaluable in the term domain: %s" % e)
+                continue
+            if not (isinstance(r, tuple) and len(r) == 2 and all(symx._is_expr(t) for t in r)):
+                chk.ob("R10.4", key, None, fi.where(), what + " -- result is not a pair of terms (%s)" % str(r)[:120])
+                continue
+            bad = []
+            for nm, got, base, mat in (("x", r[0], u, A_), ("y", r[1], v, B_)):
+                eq, d = symx.equal(got, base + P(mat, u, v))
+                if not eq:
+                    lost = sorted(str(s_) for s_ in (set(e_ for row in mat for e_ in row) - symx._as_expr(got).free_symbols))
+                    bad.append("%s result %s" % (nm, ("does not depend on coefficient(s) %s" % ", ".join(lost[:8])) if lost else ("differs by %s" % str(d)[:160])))
+            chk.ob("R10.4", key, not bad, fi.where(), what + ("" if not bad else " -- " + "; ".join(bad)))
 
 
 # ---------------------------------------------------------------------------
@@ -2900,6 +2934,151 @@ def _fit_driver(chk, repo, fi, model):
     if not (isinstance(Dn, dict) and Dn.get("ap") == AI and Dn.get("bp") == BI):
         bad.append("(results are not stored as self.distort['ap'], self.distort['bp'] in this order)")
     chk.ob("R10.12", kf, not bad, fi.where(), what + ("" if not bad else " -- differs in: %s (got %s)" % (", ".join(bad), {k_: str(v_)[:70] for k_, v_ in b.items() if k_ in bad})))
+
+
+# ---------------------------------------------------------------------------
+# R10.12 (continued) the lazily fitted inverse: which fit driver runs, with which options, over which image
+# ---------------------------------------------------------------------------
+_FIT_DRIVERS = {"scamp": "InvertPVDistortion", "sip": "InvertSipDistortion"}
+
+
+def _opt_term(v):
+    """an option value as a term (booleans become the TRUE / FALSE symbols), or None when it is not a value of the term domain"""
+    if isinstance(v, bool):
+        return sp.Symbol("TRUE" if v else "FALSE")
+    if isinstance(v, int):
+        return sp.Integer(v)
+    if symx._is_expr(v):
+        return symx._as_expr(v)
+    return None
+
+
+def _driver_calls(repo, fi, st, args):
+    """run `fi` in the term domain with the two fit drivers summarised (not entered): -> [(driver name, {parameter: value}, unconditional)]
+    in call order, and the evaluator (for the state it leaves)."""
+    se = _mkse(repo, ())
+    quals = {W + n: n for n in _FIT_DRIVERS.values() if repo.has(W + n)}
+    se.summaries = {q: (lambda b: sp.Symbol("RMS")) for q in quals}
+    se.run(fi, dict(st), args)
+    return [(quals[q], b, top) for q, b, top in se.calls if q in quals], se
+
+
+def lazyfit(chk, repo):
+    """The inverse polynomial that sky2image(find=False) uses is fitted on first use.  Whatever dispatches to the fit driver of the
+    header's distortion model must hand every option to the parameter of that driver with the same name -- the drivers do not list
+    their parameters in the same order -- and the fit that the first inverse use triggers must raise the order by what the object
+    then records as the order of its inverse (ap_order - a_order)."""
+    u, v = symx.symbols("u", "v")
+    missing = [n for n in _FIT_DRIVERS.values() if not repo.has(W + n)]
+    # (a) the public dispatcher: options reach the same-named parameters of the driver of the model in use
+    opts = {"fac": sp.Symbol("opt_fac"), "order_increase": sp.Symbol("opt_order_increase"), "verbose": sp.Symbol("opt_verbose"), "doplot": sp.Symbol("opt_doplot")}
+    disp = repo.func(W + "InvertDistortion") if repo.has(W + "InvertDistortion") else None
+    for model, drv in sorted(_FIT_DRIVERS.items()):
+        key = "InvertDistortion[%s]::options-reach-the-fit-driver" % model
+        what = "for a %s model the fit is done by %s and each option (fac, order_increase, verbose, doplot) is bound to that driver's parameter of the same name" % (model, drv)
+        if disp is None or missing:
+            chk.ob("R10.12", key, None, "esutil/wcsutil.py", what + " -- %s not found" % ("InvertDistortion" if disp is None else ", ".join(missing)))
+            continue
+        st, _, _, _ = _state("-TPV" if model == "scamp" else "-TAN-SIP", model)
+        given = {k_: v_ for k_, v_ in opts.items() if k_ in disp.params}
+        try:
+            calls, _ = _driver_calls(repo, disp, st, given)
+        except (symx.Unsupported, KeyError, TypeError, IndexError, AttributeError) as e:
+            chk.ob("R10.12", key, None, disp.where(), what + " -- the dispatcher is not evaluable in the term domain: %s" % e)
+            continue
+        if len(calls) != 1:
+            chk.ob("R10.12", key, (False if (not calls or all(c[0] != drv for c in calls)) else None), disp.where(), what + " -- %d driver calls reached (%s)" % (len(calls), ", ".join(c[0] for c in calls)))
+            continue
+        name, b, top = calls[0]
+        tgt = repo.func(W + name)
+        bad = []
+        if name != drv:
+            bad.append("the driver called is %s" % name)
+        if not top:
+            bad.append("the call is conditional")
+        unk = False
+        for p_ in [q_ for q_ in tgt.params[1:] if not q_.startswith("*")]:
+            got = b.get(p_)
+            if p_ in given:
+                if not (got is given[p_] or got == given[p_]):
+                    src = [k_ for k_, s_ in given.items() if got is s_ or got == s_]
+                    bad.append("parameter `%s` of %s receives %s" % (p_, name, ("the value of `%s`" % src[0]) if src else str(got)[:60]))
+            else:
+                # an option the dispatcher does not have: the driver's own default
+                dv = _opt_term(const_value(tgt.defaults[p_])) if p_ in tgt.defaults else None
+                gv = _opt_term(got)
+                if dv is None or gv is None:
+                    unk = True
+                elif dv != gv:
+                    bad.append("parameter `%s` of %s receives %s (its default is %s)" % (p_, name, gv, dv))
+        chk.ob("R10.12", key, (None if (unk and not bad) else not bad), disp.where(), what + ("" if not bad else " -- " + "; ".join(bad)))
+    # (b) the first inverse use: Distort(inverse=True) on an object whose inverse has not been fitted
+    fi = repo.func(W + "Distort")
+    for model, drv in sorted(_FIT_DRIVERS.items()):
+        key = "Distort[%s,inverse=True,first-use]::fit-order" % model
+        what = "the first inverse use of a %s model fits the inverse once with %s, raising the order by what the object records (ap_order - a_order, bp_order - b_order)" % (model, drv)
+        if missing:
+            chk.ob("R10.12", key, None, fi.where(), what + " -- %s not found" % ", ".join(missing))
+            continue
+        st, _, _, _ = _state("-TPV" if model == "scamp" else "-TAN-SIP", model, inverse_ready=False)
+        ao, bo = sp.Symbol("a_order"), sp.Symbol("b_order")
+        st["self.distort"].update({"a_order": ao, "b_order": bo, "ap_order": sp.Symbol("ap_order_header"), "bp_order": sp.Symbol("bp_order_header")})
+        try:
+            calls, se = _driver_calls(repo, fi, st, {"x": u, "y": v, "inverse": True})
+        except (symx.Unsupported, KeyError, TypeError, IndexError, AttributeError) as e:
+            chk.ob("R10.12", key, None, fi.where(), what + " -- not evaluable in the term domain: %s" % e)
+            continue
+        D = se.last_env.vars.get("self.distort")
+        rec = [(D.get("ap_order"), ao), (D.get("bp_order"), bo)] if isinstance(D, dict) else []
+        incs = []
+        for got, base in rec:
+            d_ = sp.simplify(symx._as_expr(got) - base) if symx._is_expr(got) else None
+            if d_ is not None and d_.is_Integer:
+                incs.append(d_)
+        if len(calls) != 1 or calls[0][0] != drv or len(incs) != 2 or incs[0] != incs[1]:
+            ok = False if (len(calls) == 1 and calls[0][0] != drv) or (not calls) else None
+            chk.ob("R10.12", key, ok, fi.where(), what + " -- driver calls reached: %s; recorded order increases: %s" % ([c[0] for c in calls] or "none", incs or "not recognised"))
+            continue
+        got = _opt_term(calls[0][1].get("order_increase"))
+        chk.ob("R10.12", key, (None if got is None else bool(got == incs[0] and calls[0][2])), fi.where(),
+               what + " (the driver receives order_increase=%s, the object records an increase of %s%s)" % (calls[0][1].get("order_increase"), incs[0], "" if calls[0][2] else "; the call is conditional"))
+
+
+# ---------------------------------------------------------------------------
+# R10.6 (continued) the image size the inverse fit covers
+# ---------------------------------------------------------------------------
+def imagesize(chk, repo):
+    """`self.naxis` is the size of the image: NAXIS1/NAXIS2, except in the header of a tile-compressed image (FITS tiled image
+    compression convention), where NAXISn describe the binary table that stores the tiles and ZNAXIS1/ZNAXIS2 hold the size of the image.
+    The fit drivers fit the inverse polynomial over pixels 1..naxis (R10.12 fit-grid-covers-the-image), so this is what 'over the whole
+    image' rests on."""
+    methods = _methods(repo)
+    writers = sorted(n for n, f in methods.items() if any(a == "naxis" for _, a, _ in _state_writes(f)[0]))
+    key = "image-size"
+    what = "self.naxis = (ZNAXIS1, ZNAXIS2) when the header has them (tile-compressed image: NAXISn are the dimensions of the table of tiles), else (NAXIS1, NAXIS2)"
+    if len(writers) != 1 or writers[0] == "__init__":
+        chk.ob("R10.6", key + "::single-writer", None, "esutil/wcsutil.py", what + " -- the method that sets self.naxis is not recognised (%s)" % (writers or "none"))
+        return
+    fi = methods[writers[0]]
+    chk.analysed_unit(fi.qualname)
+    n1, n2, z1, z2 = symx.symbols("hdr_naxis1", "hdr_naxis2", "hdr_znaxis1", "hdr_znaxis2")
+    cases = (("plain", {"naxis1": n1, "naxis2": n2}, (n1, n2)),
+             ("tile-compressed", {"naxis1": n1, "naxis2": n2, "znaxis1": z1, "znaxis2": z2}, (z1, z2)))
+    for tag, wcs, want in cases:
+        k_ = "%s::%s[%s]" % (fi.name, key, tag)
+        wcs = dict(wcs, naxis=sp.Integer(2), bitpix=sp.Symbol("hdr_bitpix"), ctype1="RA---TAN", ctype2="DEC--TAN")
+        se = _SE(repo, inline_depth=6)
+        try:
+            se.run(fi, {"self.wcs": wcs}, {})
+            got = se.last_env.vars.get("self.naxis")
+        except (symx.Unsupported, KeyError, TypeError, IndexError, AttributeError) as e:
+            chk.ob("R10.6", k_, None, fi.where(), what + " -- not evaluable in the term domain: %s" % e)
+            continue
+        if not (isinstance(got, (tuple, list)) and len(got) == 2 and all(symx._is_expr(g_) for g_ in got)):
+            chk.ob("R10.6", k_, None, fi.where(), what + " -- self.naxis is not a pair of header values (%s)" % str(got)[:120])
+            continue
+        ok = all(_eq(g_, w_) for g_, w_ in zip(got, want))
+        chk.ob("R10.6", k_, bool(ok), fi.where(), what + " (header with %s: got %s)" % (", ".join(sorted(k for k in wcs if "naxis" in k and k != "naxis")), tuple(got)))
 
 
 # ---------------------------------------------------------------------------
